@@ -3,7 +3,11 @@ import MobiusModel.Wire
 import MobiusModel.PathAlg
 /-!
   Accounts (C15): `YAMLAccountManager` (internal/mobius/account_manager.go, as of the `fix:` commits
-  cab4779, 301829b, be877eb) and the six account handlers of transaction_handlers.go.
+  cab4779, 301829b, be877eb, 5d2c023, 57e02c9, 083f744) and the six account handlers of
+  transaction_handlers.go.  57e02c9 (writers remove a left-over `.account.tmp` first) does not change the
+  abstract effect of a write; 083f744 (the loader moves a file whose name differs from the login inside back
+  under that login's name) is a no-op on the states the invariant describes — `load` below is the loader on
+  such states and leaves the directory as it is.
 
   State = (mem : login ↦ account, disk : file name ↦ account).  External things are parameters
   (`Env`): bcrypt as `hash`/`verify`, the file system's NAME_MAX as `nameMax`.  The YAML library is
